@@ -421,12 +421,21 @@ def gen_simple(rng, H):
     order = objs + funs
     rng.shuffle(order)
 
+    with_hash = rng.random() < 0.4
+    if with_hash:
+        H["simple:units with # parameter"] += 1
+
     def body(params):
+        # a parameter is used either with `#` or outside, not both (there lives stringize-nested-call)
+        strp = [q for q in params if with_hash and rng.random() < 0.4]
+        plainp = [q for q in params if q not in strp]
         out = []
         for _ in range(rng.choice([1, 1, 2, 3, 4, 6, 9])):
             r = rng.random()
-            if params and r < 0.4:
-                out.append(rng.choice(params))
+            if strp and r < 0.15:
+                out += ["#", rng.choice(strp)]
+            elif plainp and r < 0.4:
+                out.append(rng.choice(plainp))
             elif objs and r < 0.6:
                 out.append(rng.choice(objs))
             elif r < 0.72:
@@ -683,6 +692,69 @@ def gen_reuse(rng, H):
             lines += uses()[:2]
     lines += uses()
     return "\n".join(lines) + "\n"
+
+
+
+# --- capacity: what makes pp.c's arrays grow (256 bytes at first: about 7 tokens, 10 frames, 16 parameters) ------
+def gen_capacity(rng, H):
+    """valid units that push pp.c's growing arrays past their first allocation: chains of nested replacements
+    (the context stack), macros with many parameters and long replacement lists, long arguments, long
+    stringified arguments, many new-lines between a macro name and its parenthesis, invocations nested deeply
+    in arguments, parameters replaced while the context stack is deep"""
+    k = rng.choice(["chain", "chain-fun", "wide", "longstr", "newlines", "nest", "deep-params"])
+    H["capacity:" + k] += 1
+    L = []
+    if k == "chain":
+        n = rng.randint(9, 60)
+        for i in range(n):
+            L.append("#define C%d %s C%d %s" % (i, rng.choice(["", "x", "(", "1 +"]), i + 1, rng.choice(["", "y", ")", "C0"])))
+        L.append("#define C%d end C0 C%d" % (n, n // 2))
+        L.append("C0 ; C%d , C%d" % (n // 3, n - 1))
+    elif k == "chain-fun":
+        n = rng.randint(9, 40)
+        for i in range(n):
+            L.append("#define f%d(a, b) %s f%d(b, a %s) a" % (i, rng.choice(["", "[", "a"]), i + 1, rng.choice(["", "+ 1", "b"])))
+        L.append("#define f%d(a, b) <a|b>" % n)
+        L.append("f0(x, y) f%d((p,q), f%d(1,2))" % (n // 2, n - 1))
+    elif k == "wide":
+        n = rng.randint(15, 60)
+        ps = ["p%d" % i for i in range(n)]
+        body = []
+        for _ in range(rng.randint(20, 150)):
+            body.append(rng.choice(ps + ["+", "x", "1", "(", ")", ","]))
+        var = rng.random() < 0.3
+        L.append("#define W(%s%s) %s%s" % (", ".join(ps), ", ..." if var else "", " ".join(body), " __VA_ARGS__" if var else ""))
+        args = []
+        for i in range(n + (rng.randint(1, 20) if var else 0)):
+            args.append(" ".join(rng.choice(["a", "1", "(b,c)", "\"s\"", "+", "x y"]) for _ in range(rng.choice([1, 1, 2, 12, 30]))))
+        L.append("W(%s) tail" % ", ".join(args))
+    elif k == "longstr":
+        L.append("#define S(a, ...) #a #__VA_ARGS__ a")
+        n = rng.randint(30, 200)
+        toks = [rng.choice(["abcdefgh", "\"q\\\"r\"", "'c'", "1.5e+3", "+", "x", "(y)"]) for _ in range(n)]
+        L.append("S(%s, %s)" % (" ".join(toks), " , ".join(toks[:n // 2])))
+    elif k == "newlines":
+        L.append("#define F(a) [a]")
+        L.append("#define O F")
+        n = rng.randint(8, 40)
+        L.append("F" + "\n" * n + "(1) O" + "\n" * rng.randint(8, 40) + "(2) F" + "\n" * n + "x")
+    elif k == "nest":
+        L.append("#define F(a) a a")
+        L.append("#define G(a, b) b , a")
+        n = rng.randint(5, 11)
+        e = "z"
+        for i in range(n):
+            e = rng.choice(["F(%s)", "G(%s, q)", "G(r, %s)"]) % e
+        L.append(e)
+    else:
+        n = rng.randint(6, 20)
+        L.append("#define P(a, b, c) a D1 b c a")
+        for i in range(1, n):
+            L.append("#define D%d ( D%d )" % (i, i + 1))
+        L.append("#define D%d P2(u, v)" % n)
+        L.append("#define P2(a, b) a b a b a b a b a b")
+        L.append("P(1 2 3 4 5 6 7 8 9, x, (y, z))")
+    return "\n".join(L) + "\n"
 
 
 # --- invalid input (diagnostics) -------------------------------------------------------------------
@@ -1094,7 +1166,7 @@ def examine1(X, texts, label, expect=None, asan=None):
             if tc:
                 X.tclass[tc] = X.tclass.get(tc, 0) + 1
             # the class of function_like_correct_init, decided by the driver with the theorem's own tests
-            if M is not None and getattr(M[i], "cls", None):
+            if M is not None and getattr(M[i], "cls", None) in ("F", "O", "P"):
                 X.tclass["whole:" + M[i].cls] = X.tclass.get("whole:" + M[i].cls, 0) + 1
                 if not tc:
                     X.tclass["whole-only"] = X.tclass.get("whole-only", 0) + 1
@@ -1115,7 +1187,24 @@ def examine1(X, texts, label, expect=None, asan=None):
             # behind the first text line: a directive was reached inside an invocation (undefined, 6.10.3p11;
             # the use-after-free is the C19 finding undef-during-argument-collection)
             s.notes = set(s.notes) | {"dirInArgs"}
-        if getattr(m, "cls", None) and s.err is None and (m.err is not None or m.keys(X) != s.keys(X)):
+        if (getattr(m, "cls", None) or "").startswith("X"):
+            # the unit is in the class of the whole-stream theorem, but one of the two gaps between the theorem and
+            # the unit is open on it (evaluated by the driver): `Xref-`: the reference on the table the model built
+            # and the text after the directives differs from the reference on the whole unit -- the recorded
+            # finding macroequal-ignores-space when the reference rejects a redefinition the model accepts;
+            # `Xmodel-`: the model's run from the state after the directives differs from its run on the unit
+            if m.cls.startswith("Xref-") and s.err in ("redefinitionSpace", "redefinition"):
+                X.tclass["gap:redefinition (macroequal-ignores-space)"] = \
+                    X.tclass.get("gap:redefinition (macroequal-ignores-space)", 0) + 1
+            else:
+                nofail_violation(X, {"kind": "theorem-unit-gap", "input": t, "input_hex": hx(bs[i]), "set": label,
+                                     "class": m.cls, "model": show(X, m.toks) + (" !" + m.err if m.err else ""),
+                                     "reference": show(X, s.toks) + (" !" + s.err if s.err else ""),
+                                     "theorem": "CprocVerif.C12.function_like_correct_total",
+                                     "what": "the whole-stream theorem speaks about the state after the leading "
+                                             "directives; on this unit that state does not stand for the unit"})
+                continue
+        if getattr(m, "cls", None) in ("F", "O", "P") and s.err is None and (m.err is not None or m.keys(X) != s.keys(X)):
             # the unit is in the class of function_like_correct_total (decided by the theorem's own tests on the
             # table the MODEL builds), the reference accepts its directives too (so it builds the same table, up to
             # the recorded finding macroequal-ignores-space), and yet model and reference differ: the proved
@@ -1501,6 +1590,17 @@ def run(ck):
         reuse = [gen_reuse(rng_r, H) for _ in range(150 if quick else 1500)]
         examine(X, reuse, "redefine-after-use", asan=40 if quick else 300)
         ck.sample({"redefinition after use": reuse[0][:600]})
+    # 2e. capacity (own generator state)
+    if go_on(X):
+        import random
+        rng_c = random.Random("c12-capacity-%r" % (rng.getstate()[1][0],))
+        cap = []
+        while len(cap) < (60 if quick else 400):
+            u = gen_capacity(rng_c, H)
+            if len(u) <= 2500:
+                cap.append(u)
+        examine(X, cap, "capacity", asan=60 if quick else 400)
+        ck.sample({"capacity": cap[0][:400]})
     # 3. redefinitions
     if go_on(X):
         red = [gen_redef(rng, H) for _ in range(200 if quick else 2500)]
@@ -1555,9 +1655,11 @@ def run(ck):
         "function_like_correct_init, table with function-like macros (tblOKb/textOKb evaluated by the driver "
         "on the table the model builds from the leading directives)": n_wf,
         "function_like_correct_init, object-like table": n_wo,
-        "function_like_args_correct_init only (arguments that name object-like macros or hold nested invocations: "
-        "complete replacement before substitution; textPb evaluated by the driver)": n_wp,
+        "function_like_correct_total only (# parameter in replacement lists; arguments that name object-like macros "
+        "or hold nested invocations; tblOKSb/textPb evaluated by the driver)": n_wp,
         "some whole-stream theorem": n_any,
+        "in the class but the reference rejects a redefinition that the model accepts (macroequal-ignores-space)":
+            X.tclass.get("gap:redefinition (macroequal-ignores-space)", 0),
         "fraction_total": round(n_tot / n_units, 4), "fraction_object_like": round(n_obj / n_units, 4),
         "fraction_function_like_whole_stream": round((n_wf + n_wp) / n_units, 4),
         "fraction_some_whole_stream_theorem": round(n_any / n_units, 4),
@@ -1601,7 +1703,8 @@ META = {
              "reference's subst (ctxnext_delivers_flat, lazy_substitution_correct); for one simple function-like "
              "invocation the model's new context equals the list the reference continues with "
              "(function_like_step_correct); for tables of object-like and simple function-like macros (at least one "
-             "parameter, no #, no ..., no empty replacement list, no function-like name inside a replacement list) and "
+             "parameter, # parameter allowed when the parameter is not also used outside #, no ..., no empty "
+             "replacement list, no function-like name inside a replacement list) and "
              "texts without directives whose invocations have the right number of non-empty arguments, the arguments "
              "naming object-like macros and holding nested invocations to any depth, the model's token stream IS the "
              "reference's (function_like_correct_partial; function_like_args_correct_partial: complete replacement of "
@@ -1623,7 +1726,8 @@ META = {
              "later, the reference follows the text of 6.10.3.4p2 and both compilers rather than Prosser's "
              "persistent hide sets, and reports when the two readings differ); the scanner model of C13 for "
              "tokenisation; the macro table as a dictionary (C16/C20).  Not proved: model = reference as a "
-             "whole-stream statement outside the class above, i.e. with #param, variadic macros, empty arguments or "
+             "whole-stream statement outside the class above, i.e. with a parameter used both with # and outside, "
+             "variadic macros, empty arguments or "
              "replacement lists, names of function-like macros inside replacement lists or not followed by '(', "
              "directives after the first text line (the ingredients are proved; checked by the run; the excluded "
              "classes include the known findings stringize-nested-call, empty-expansion-space, depth-count-confusion, "
